@@ -137,6 +137,8 @@ fn graph_dump(graph: &Graph, texts: &BTreeMap<String, String>, options: &Markdow
     (arena, glist(&kmap), glist(&titles), glist(&notes), glist(&tables))
 }
 
+pub const FORMAT_OP: &str = "\u{1}FORMAT";
+
 pub fn execute(v: &Value) -> String {
     let ext = v["ext"].as_str().unwrap_or("");
     let options = MarkdownOptions { refs_extension: ext.to_string() };
@@ -166,6 +168,15 @@ pub fn execute(v: &Value) -> String {
     let mut steps = vec![];
     for (name, text) in &ops {
         let key = Key::name(name);
+        // the marker op "format": the note is re-submitted as the server itself writes it (what an editor
+        // sends after applying textDocument/formatting) - same graph, other line layout
+        let formatted: String;
+        let text = if text == FORMAT_OP {
+            formatted = guard(|| db.graph().to_markdown(&key)).unwrap_or_default();
+            &formatted
+        } else {
+            text
+        };
         let step_in = note_in_term(name, text, None, &options);
         // the graph update alone first (on a copy), so that a panic of the builder is told apart
         // from a panic of the path enumeration that `update_document` runs afterwards
@@ -275,6 +286,9 @@ pub fn generate(rng: &mut Rng, thorough: bool, n_quick: usize) -> Vec<Value> {
             };
             cur.insert(name.clone(), text.clone());
             ops.push(json!([name, text]));
+        }
+        if out.len() % 3 == 0 {
+            if let Some(first) = lib.first() { ops.push(json!([first.name, FORMAT_OP])); }
         }
         out.push(json!({"ext": ext, "kind": if hostile { "hostile" } else if nested { "nested" } else { "flat" },
                         "notes": lib.iter().map(|n| json!([n.name, n.text])).collect::<Vec<_>>(), "ops": ops}));
